@@ -189,7 +189,7 @@ theorem fp_rigid (eps rho : K) (fp : FirstPerson K) (ok : FpOk rho fp) (m : M4 K
     ∃ o : M4 K, m = (translate fp.pos.neg).andThen o.transpose ∧
       o.transpose.compose o = M4.identity ∧ o.compose o.transpose = M4.identity ∧ o.det = 1 ∧
       m.r3 = ⟨0, 0, 0, 1⟩ ∧ m.det = 1 := by
-  obtain ⟨h1, h2, _, _⟩ := fp_cross_unit fp ok.hr ok.haz ok.halt
+  obtain ⟨h1, _, _, _⟩ := fp_cross_unit fp ok.hr ok.haz ok.halt
   have haff := (fp_view_apply eps rho fp m h ⟨0, 0, 0⟩).2
   unfold FirstPerson.worldToView at h
   cases ho : orientZ eps rho fp.fwd fp.right with
@@ -197,7 +197,7 @@ theorem fp_rigid (eps rho : K) (fp : FirstPerson K) (ok : FpOk rho fp) (m : M4 K
   | ok o =>
     rw [ho] at h
     injection h with h
-    obtain ⟨r1, r2⟩ := C09.orient_z_rotation eps rho fp.fwd fp.right o ho h1 h2 ok.hrho
+    obtain ⟨r1, r2⟩ := C09.orient_z_rotation eps rho fp.fwd fp.right o ho h1 ok.hrho
     have r3 := C09.Inverse.right_inverse_of_left_inverse o o.transpose r1
     refine ⟨o, h.symm, r1, r3, r2, haff, ?_⟩
     rw [← h, M4.andThen, C09.det_mul, C09.det_transpose, r2, C09.det_translate, one_mul]
